@@ -162,6 +162,18 @@ Theorem C01_preprocessed_suffixes_passthrough :
 Proof. exact preprocessed_suffixes_have_no_language. Qed.
 Print Assumptions C01_preprocessed_suffixes_passthrough.
 
+(* "Same environment": the preprocessor run and the compile are spawned with a cleared environment plus the CLIENT's
+   variables (`.env_clear().envs(..)`, transcribed by the translator from preprocess_cmd and
+   SingleCompileCommand::execute), so for every environment the server itself was started in the compiler sees exactly the
+   client's.  (e2e: every server of the histories is started with variables the clients do not have - locale,
+   SOURCE_DATE_EPOCH, CPATH, GCC_COLORS.) *)
+Theorem C01_commands_run_in_client_env :
+  forall server client : envmap,
+    child_env preprocess_env_cleared server client = client /\
+    child_env compile_env_cleared server client = client.
+Proof. exact commands_run_in_client_env. Qed.
+Print Assumptions C01_commands_run_in_client_env.
+
 (* Open findings, as theorems about the current code (witnesses by computation). *)
 Theorem C01_dep_target_without_md_dropped :
   exists argv p, parse_arguments the_tables gcc_env argv = ROk p /\ In (bs "-MT") argv /\
